@@ -219,6 +219,12 @@ def make_session(rng, version, fws, extra_nodes=()):
     for n in list(nodes) + list(extra_nodes):
         ops.append(("L", f"{n};255;0;0;17;{version}\n"))
         expect.append(None)
+        if version not in ("1.4", "1.5") and rng.random() < 0.4:
+            # the node is a smart-sleep node (it has a child and has announced a sleep period): firmware
+            # replies are still answered at once — a node in its bootloader sends no wake-up message
+            ops.append(("L", f"{n};1;0;0;3;\n"))
+            ops.append(("L", f"{n};255;3;0;{32 if version == '2.2' else 22};500\n"))
+            expect.extend([None, None])
     # an earlier build loaded under the same (type, version) and partly served to another node before
     # the image of this session replaces it: nothing of the earlier build may be served afterwards
     used = set(nodes) | set(extra_nodes)
